@@ -374,7 +374,9 @@ pub fn stroke_to_path(path: &Path, style: &StrokeStyle) -> Path {
                         join_line(&mut stroked_path, style, end_point, last_normal, start_normal);
                     }
                 }
-                cur_pt = start_point.map(|x| x.0);
+                // closing moves back to the start of the subpath; if the subpath has had no
+                // segment of non-zero length yet, that is where we still are
+                cur_pt = start_point.map(|x| x.0).or(cur_pt);
                 start_point = None;
             }
             PathOp::QuadTo(..) => panic!("Only flat paths handled"),
